@@ -90,15 +90,20 @@ CLAIMS = {
 
 def _partial(pid, what, sec):
     return dict(
-        text="PARTIAL. Proved on the reference semantics, for every program, valuation sequence and registration / observer "
-             "configuration: (1) %s_sync_partial - under the schedule in which every service is completed from inside its "
+        text="PARTIAL (order across interleaved branches). Proved on the reference semantics, for every program, valuation "
+             "sequence and registration / observer configuration: (1) %s_sync_partial - under the schedule in which every service is completed from inside its "
              "service-started notification the interpreter issues exactly the denotation den_* of coq/RefDen.v, whose clause "
-             "for this property reads: %s; (2) for ALL schedules and histories the order completes exactly when nothing is "
-             "outstanding (C01 theorem): no wake-up is lost, nothing is deferred. For the other schedules the property's "
-             "behaviour is the definition of the reference semantics; it is compared on every run with the implementation "
+             "for this property reads: %s; (2) ALL schedules (%s_confluence, RefConfluence.v): for every completion order, every "
+             "set of immediately completed services and every history incl. junk, for an oracle that does not depend on the "
+             "query counter, the history of a completed order is a PERMUTATION of that denotation (every event exactly as often "
+             "as the denotation says) and no event ever occurs more often in an incomplete history; (3) for ALL schedules and "
+             "histories the order completes exactly when nothing is outstanding (C01 theorem) and every accepted completion is "
+             "delivered into the waiting service (RefProgress): no wake-up is lost, nothing is deferred. What is not proved is "
+             "the relative order of events across interleaved branches beyond the re-entrant schedule (for that the property's "
+             "behaviour is the definition of the reference semantics); it is compared on every run with the implementation "
              "and with the faithful net model (all generated programs, completion orders incl. re-entrant ones, valuations), "
              "under the projection of the trace this property is about. Known findings (parallel-loop shapes D7) are "
-             "reported as KNOWN-FINDING." % (pid, what),
+             "reported as KNOWN-FINDING." % (pid, what, pid),
         technique="Coq proof (mutual induction over the interpreter against a denotational reading; C01 invariant) + "
                   "differential correspondence with two executable models",
         design_ref="DESIGN.md §9 " + pid, note=RUN_NOTE)
@@ -178,72 +183,73 @@ CHECK_NOTE = ("Trusted: Coq 8.16.1 kernel incl. vm_compute (no native_compute); 
 
 CLAIMS.update({
     "C09": dict(
-        text="PARTIAL (static half). Full statement 'accepted => sched_safe' is REFUTED on the faithful model "
-             "(C09_accepted_is_sched_safe_refuted: recursion D8, the call inside a parallel loop D9, loop limits D10, guard "
-             "types D12b are not checked). Proved for all programs: acceptance implies productionTask exists, every task call "
-             "the validator looks at (any nesting, Parallel blocks) names a defined task with matching arity, parallel loops "
-             "are a single call, variable parameters are declared (C09_accepted_is_sched_safe_checked); under the executable "
-             "guard 'none of the four unchecked shapes' acceptance implies sched_safe (C09_accepted_is_sched_safe_partial). "
-             "The run-time half (sched_safe => no exception, order completes) is the hypothesis interface of the RefSem/NetModel "
-             "theorems (C01) and is exercised here on the implementation: every accepted member of the well-formed family, of "
-             "the single-fault mutants and of the near-valid variants is constructed, started and driven to the end with "
-             "well-typed values in a random completion order.",
-        technique="Coq proof (contrapositives of the C10 rejection theorems) + vm_compute refutation witnesses + driving "
+        text="PARTIAL (static half). Proved for all programs (C09_accepted_is_sched_safe): acceptance implies productionTask "
+             "exists, every task call - at any nesting, in Parallel blocks and in parallel loops - names a defined task with "
+             "matching arity, parallel loops are a single call, variable parameters are declared, no task call leads back to the "
+             "calling task (finite unfolding) and loop limits resolve to a number. This was refuted before the repairs of D8 "
+             "(recursion), D9 (parallel-loop call) and D10 (limits) in /repo. Still refuted: guards are not type checked "
+             "(C09_accepted_guards_typed_refuted, known finding D12b: a string as condition is accepted and raises TypeError at "
+             "run time). The run-time half (sched_safe => no exception, order completes) is the hypothesis interface of the "
+             "RefSem/NetModel theorems (C01) and is exercised here on the implementation: every accepted member of the "
+             "well-formed family, of the single-fault mutants and of the near-valid variants is constructed, started and driven "
+             "to the end with well-typed values in a random completion order.",
+        technique="Coq proof (contrapositives of the C10 rejection theorems) + vm_compute refutation witness + driving "
                   "accepted programs on the implementation + differential correspondence of the validator",
         design_ref="DESIGN.md §9 C09, docs/check_component.md", note=CHECK_NOTE),
     "C10": dict(
         text="PARTIAL. Proved for all programs: the descent lemma (C10_descent: messages and invalidity of a sub-statement "
-             "propagate to the enclosing statement at any nesting depth, by induction on the statement tree; stops at parallel "
-             "loops) and 18 theorems 'has_fault_k p = true -> validate p <> Ok []' for decidable fault predicates: unknown task "
-             "(plain, in Parallel), unknown struct literal, unknown type (struct attribute, task input, call output), undeclared "
-             "variable, unknown attribute, literal with missing / unknown attribute, duplicate struct / task / attribute / task "
-             "input / call output, no productionTask, undeclared task output, wrong arity, ill-formed parallel loop; under "
-             "crash_free 'not accepted' is 'at least one message' (C10_reported_under_guard). REFUTED on the faithful model "
-             "(vm_compute witnesses): recursion (D8), faults inside a parallel loop (D9), loop limits (D10), nested-literal "
-             "rules (D12a), guard typing (D12b), and operands/paths/nested keys that raise instead of reporting (D11). "
-             "Classes without a theorem (argument types, operand types, literal value types and lengths, deeper path steps) "
-             "are covered by correspondence only: all 89 catalogue entries x 8 position kinds x wrapping depth 0..3.",
-        technique="Coq proof (induction on the statement tree, local lemma per fault class) + vm_compute refutation witnesses "
+             "propagate to the enclosing statement at any nesting depth, into Parallel blocks and parallel loops, by induction "
+             "on the statement tree) and 20 theorems 'has_fault_k p = true -> validate p <> Ok []' for decidable fault "
+             "predicates: unknown task, unknown struct literal, unknown type (struct attribute, task input, call output), "
+             "undeclared variable, unknown attribute, literal with missing / unknown attribute, duplicate struct / task / "
+             "attribute / task input / call output, no productionTask, undeclared task output, wrong arity, recursive call, "
+             "loop limit that is no number, ill-formed parallel loop; for ASTs of the grammar's shape 'not accepted' is 'at "
+             "least one message' (C10_reported). Recursion (D8), faults inside parallel loops (D9), loop limits (D10), nested "
+             "literal rules (D12a) and the raising lookups (D11) were refuted, were repaired in /repo and are now proved / "
+             "reported. Still REFUTED on the faithful model: guard typing (D12b). Classes without a theorem (argument types, "
+             "operand types, literal value types and lengths, deeper path steps) are covered by correspondence only: all 89 "
+             "catalogue entries x 8 position kinds x wrapping depth 0..3; all of them are reported.",
+        technique="Coq proof (induction on the statement tree, local lemma per fault class) + vm_compute witnesses "
                   "+ fault injection with differential correspondence",
         design_ref="DESIGN.md §9 C10 and Appendix B, docs/check_component.md", note=CHECK_NOTE),
     "C11": dict(
         text="PARTIAL. WF (coq/Check/Typing.v) transcribes the documented rules R1-R9; wf_dec decides it (C11_wf_dec_correct). "
              "Full statement 'WF p -> validate p = Ok []' is REFUTED on the faithful model (string attribute under ==, "
-             "parenthesised string operand, array element in a guard, element of a primitive array as parameter: D20, D11a, "
-             "D11c). Proved: C11_wf_accepted_partial 'WF p -> c11_guard p = true -> validate p = Ok []' for all programs - every "
-             "construct (visitor, struct definitions, task signatures, variable / path / array-element / struct-literal "
-             "parameters with nested structs and arrays, calls matched by position and type, guards over all operators, all "
-             "statement kinds at any nesting) - where c11_guard is an executable predicate excluding exactly the refuting "
-             "shapes (inhabited; 336 of 336 generated family members). Order independence is NOT proved: every generated "
-             "program is also run with its definitions permuted and re-interleaved (same verdict, model agrees).",
+             "parenthesised string operand, array element in a guard / as condition / as loop limit, element of a primitive "
+             "array as parameter: known findings D24, D25; all are rejected with a message, none raises any more). Proved: "
+             "C11_wf_accepted_partial 'WF p -> c11_guard p = true -> validate p = Ok []' for all programs - every construct "
+             "(visitor, struct definitions, task signatures, variable / path / array-element / struct-literal parameters with "
+             "nested structs and arrays, calls matched by position and type also inside parallel loops, loop limits, the "
+             "recursion check, guards over all operators, all statement kinds at any nesting) - where c11_guard is an executable "
+             "predicate excluding exactly the refuting shapes (inhabited; all generated family members). Order independence is "
+             "NOT proved: every generated program is also run with its definitions permuted and re-interleaved.",
         technique="Coq proof (induction over statements, expressions, paths and struct literals against the declarative "
-                  "typing rules) + certified generation + differential correspondence",
+                  "typing rules; call-chain bound => no recursion report) + certified generation + differential correspondence",
         design_ref="DESIGN.md §9 C11, docs/check_component.md", note=CHECK_NOTE),
     "C16": dict(
         text="PARTIAL. Proved for all ASTs / Process objects: the verdict is valid iff nothing was printed "
              "(C16_verdict_iff_no_message); every check_* method and validate_process return True iff they printed nothing "
-             "(C16_checker_flag_matches_output); validation terminates (structural recursion, no fuel). 'A verdict for every "
-             "program' is REFUTED on the faithful model with one vm_compute witness per unguarded lookup (10 crash sites, D11a/"
-             "D11c/D11d) and proved under the executable guard crash_free that excludes exactly those shapes "
-             "(C16_always_a_verdict_partial, C16_no_exception_partial). NOT covered by a theorem: arbitrary strings (lexer, "
-             "parser, json.loads) - a fuzz stream of character/token mutations, truncations, random token sequences and random "
-             "bytes is checked by a monitor (verdict, no exception, valid iff silent, same in both formats; invalid => "
-             "start() False, fire_event False); it found D22 (JSON strings json.loads rejects) and D23 (text that names a "
-             "directory).",
-        technique="Coq proof (closure of the check combinators, mirrored guard) + vm_compute refutation witnesses + "
-                  "differential correspondence + fuzzing with a monitor",
+             "(C16_checker_flag_matches_output); validation terminates; and for every AST of the shape the grammar produces "
+             "(from_grammar: a condition on paths and literals that the parser guarantees; shown necessary) validation returns "
+             "a list of messages, no exception escapes (C16_always_a_verdict, C16_no_exception). The ten crash sites found "
+             "earlier (D11a, D11c, D11d) were repaired in /repo; their witnesses now yield one message each. NOT covered by a "
+             "theorem: arbitrary strings (lexer, parser, json.loads) - a fuzz stream of character/token mutations, truncations, "
+             "random token sequences and random bytes is checked by a monitor (verdict, no exception, valid iff silent, same in "
+             "both formats; invalid => start() False, fire_event False); it found D22 and D23, both repaired.",
+        technique="Coq proof (closure of the check combinators; unguarded lookups reached only after a successful access "
+                  "check) + differential correspondence + fuzzing with a monitor",
         design_ref="DESIGN.md §9 C16, docs/check_component.md", note=CHECK_NOTE),
     "C19": dict(
         text="PARTIAL. Proved on AST positions for all programs: every message printed while a statement is checked carries a "
              "context inside that statement (C19_messages_point_into_statement); a sub-statement found invalid at any depth is "
              "reported with a context inside that sub-statement (C19_fault_located, with the descent lemma); task messages "
-             "point into the task; a missing productionTask is reported at line 1; the checker never prints without a position. "
-             "'Every message has a position' is REFUTED (the visitor's array-length message has line 0, D21) and proved when no "
-             "array length is given by a name. The position -> line arithmetic of the printer and the equality of the console "
-             "and editor-extension formats are NOT proved: they are checked by correspondence (fault x position x layout "
-             "variants that shift lines x both formats; lines compared with the model through the printer's line map).",
-        technique="Coq proof (context-locality invariant over the checker, descent lemma) + fault injection under layout "
-                  "variants with differential correspondence in both output formats",
+             "point into the task; a missing productionTask is reported at line 1; every message of every program has a "
+             "position (C19_every_message_has_a_position - refuted before the repair of D21). The position -> line arithmetic "
+             "of the printer and the equality of the console and editor-extension formats are NOT proved: they are checked by "
+             "correspondence (fault x position x layout variants that shift lines x both formats; lines compared with the model "
+             "through the printer's line map).",
+        technique="Coq proof (context-locality invariant over the checker and the visitor, descent lemma) + fault injection "
+                  "under layout variants with differential correspondence in both output formats",
         design_ref="DESIGN.md §9 C19, docs/check_component.md", note=CHECK_NOTE),
 })
 
